@@ -141,6 +141,9 @@ type config struct {
 	// Cache: the proxy's answer cache is on and every question is asked twice;
 	// the judged response is the second one, served from the cache.
 	Cache bool `json:"answer_cache,omitempty"`
+	// NX: the upstream answers NXDOMAIN and still carries the answer section
+	// (a CNAME chain ending at a name that does not exist).
+	NX bool `json:"upstream_nxdomain,omitempty"`
 }
 
 type caseC struct {
@@ -232,6 +235,9 @@ func (e *env) runConfig(cf *config, qtypes []uint16, seqs [][]string) {
 			a.Upstream.Answer = func(req *dns.Msg) *dns.Msg {
 				resp := (&dns.Msg{}).SetReply(req)
 				resp.RecursionAvailable = true
+				if cf.NX {
+					resp.Rcode = dns.RcodeNameError
+				}
 				for _, rr := range mkAnswer(seq) {
 					resp.Answer = append(resp.Answer, rr)
 				}
@@ -335,7 +341,11 @@ func (e *env) runConfig(cf *config, qtypes []uint16, seqs [][]string) {
 			if len(seq) > 0 {
 				c.Distinct("cells", cf.Rules.Name+"|"+cf.Mode+"|"+cs.Qtype+"|delivered|"+fmt.Sprint(applicable))
 			}
-			if m.Rcode != dns.RcodeSuccess || len(m.Answer) != len(ans) {
+			wantRcode := dns.RcodeSuccess
+			if cf.NX {
+				wantRcode = dns.RcodeNameError
+			}
+			if m.Rcode != wantRcode || len(m.Answer) != len(ans) {
 				c.Violation("answer-not-delivered:"+cf.Rules.Name, fmt.Sprintf("no answer record matches a blocking rule (or response filtering is not applicable) but the upstream answer was not delivered\ngot: %s\ncase: %s", cs.Got, jsonStr(cs)), cs)
 				continue
 			}
@@ -405,7 +415,8 @@ func run(c *lib.Ctx) {
 			f.Rules, f.Mode = rs, "default"
 			confs = append(confs, f)
 		}
-		confs = append(confs, config{Rules: rs, Mode: "default", Prot: true, Filter: true, ClientOK: "none", Cache: true},
+		confs = append(confs, config{Rules: rs, Mode: "default", Prot: true, Filter: true, ClientOK: "none", NX: true},
+			config{Rules: rs, Mode: "default", Prot: true, Filter: true, ClientOK: "none", Cache: true},
 			config{Rules: rs, Mode: "null_ip", AAAAOff: true, Prot: true, Filter: true, ClientOK: "none", Cache: true})
 	}
 	// Split the sequence list into chunks so that shards balance.
@@ -463,7 +474,7 @@ func main() {
 				"distinct_nontrivial": m.Distinct["nontrivial"],
 				"configurations":      m.Counters["configs"],
 				"distinct_cells":      m.Distinct["cells"],
-				"rule": "every answer section of length <=3 (quick) / <=4 (thorough) over 15 record kinds (CNAME safe/bad/case/excepted with owner chaining, A/AAAA safe/bad, HTTPS with no hint, bad v4 hint, bad v6 hint, clean first hint + bad later hint, hint list with bad last, TXT, MX) x 10 rule sets x (5 modes + 5 flag variants: AAAA disabled, protection off, filtering off, client filtering off + 2 variants with the proxy's answer cache on, where every question is asked twice and the second, cached, response is judged) x 5 query types, through the real pipeline with a scripted upstream; oracle: first record exposing a host the rule model blocks => blocking-mode response for the query's type (no upstream data) and a log entry with original answer; else the upstream answer unchanged. distinct_nontrivial = distinct (configuration, qtype, answer section) where some record is blocked",
+				"rule": "every answer section of length <=3 (quick) / <=4 (thorough) over 15 record kinds (CNAME safe/bad/case/excepted with owner chaining, A/AAAA safe/bad, HTTPS with no hint, bad v4 hint, bad v6 hint, clean first hint + bad later hint, hint list with bad last, TXT, MX) x 10 rule sets x (5 modes + 5 flag variants: AAAA disabled, protection off, filtering off, client filtering off + 1 variant in which the upstream answers NXDOMAIN with the same answer section + 2 variants with the proxy's answer cache on, where every question is asked twice and the second, cached, response is judged) x 5 query types, through the real pipeline with a scripted upstream; oracle: first record exposing a host the rule model blocks => blocking-mode response for the query's type (no upstream data) and a log entry with original answer; else the upstream answer unchanged. distinct_nontrivial = distinct (configuration, qtype, answer section) where some record is blocked",
 			}
 		},
 		Assumptions: []string{"single-rule matching delegated to urlfilter", "with AAAA disabled and response filtering applicable, HTTPS records are accepted with or without their ipv6hint; where response filtering is not applicable the answer must be byte-identical", "a cached answer is compared without its TTL"},
